@@ -169,6 +169,25 @@ CLAIMS = {
               "and by generated programs on the full machine (every CPU write logged by the bus hook), with and without a writer; TLC validates each write/read and compares the writer's buffer with the spec's `out` at random points and at the end."),
         design="5/C23", technique="TLA+ sequence spec + TLC MC; TLC trace validation of recorded bus writes against the delivered byte stream",
         note="The blargg ROM transcripts are validated by the system-level checks, not here."),
+    "C24": dict(
+        category="exploration",
+        text=("Determinism is a hyperproperty: every ROM is run through package gameboy (stand-in display/speakers, seeded button schedule) twice in one process and once in a child process, with a digest of registers, memory, frame, "
+              "cartridge RAM, serial output, timer/RTC state per frame and of the whole audio stream at the end; the TLA+ trace specification demands equality of the three runs and TLC validates it. The modelling content is thin, as DESIGN.md says."),
+        design="5/C24", technique="self-composition: recorded digests of repeated runs checked for equality by TLC (thin TLA+ content)",
+        note="A disagreement is by nature not repeatable, so rejected scenarios are reported without requiring reproduction."),
+    "C25": dict(
+        category="exploration",
+        text=("Pairs and triples of instances over different ROMs are created in every order and stepped frame-interleaved, machine-cycle-interleaved and concurrently under the race detector, each scenario in its own child process; "
+              "the TLA+ trace specification records every instance's solo digests and demands that the instance produces the same digests when it is not alone; a race report or a process exit is an event no action accepts."),
+        design="5/C25", technique="self-composition against solo runs + Go race detector; equality decided by TLC on the recorded digests (thin TLA+ content)",
+        note="Digests cover CPU registers, 8000-FFFF, frame buffer, cartridge RAM, serial output, timer and RTC state."),
+    "C26": dict(
+        category="model_checking",
+        text=("System.tla: per-cycle progress laws of the components as seen from outside (timer +4, audio 4 clocks, RTC +1, one DMA step, timer overflow -> IF bit 2, CPU first) and the Run state machine (at most one frame after a stop request, "
+              "then stopped and released; liveness under weak fairness, model-checked). The observer inside the real runFrame logs every machine cycle of generated busy ROMs and blargg ROMs; TLC validates each cycle and the 17,556-cycle frame; "
+              "runFrame is compared frame by frame with the reference loop; gameboy.Run is stopped by cancellation or a close request at random frames with the stand-in display/speakers counting frames and clean-ups."),
+        design="5/C26", technique="TLA+ frame-loop/Run spec + TLC MC with liveness; TLC trace validation of per-cycle observer logs, twin-run digests and Run lifecycles",
+        note="display/speakers are cgo-free stand-ins under the verif tag; 'CPU first' is observed through what the CPU reads of the other components in the same cycle (twin digests)."),
 }
 
 NOT_YET = "machinery for this property is not built yet in this round (work in progress; see DESIGN.md section 5)"
